@@ -531,3 +531,44 @@ def run_C10(ctx):
         ASSUME_COMMON + ["a thread the model says must block is observed only through the absence of its `sent` event before the holder is released; "
                          "a too short quiet period (3 ms) can hide a late arrival but never fabricate a violation"],
         viol)
+
+
+# ---------------------------------------------------------------------------------------------
+# C19: kernel vhost / vDPA backends
+def run_C19(ctx):
+    import subprocess
+    from vlib import ToolError
+    exe = os.path.join(ctx.dir, "uapi_dump")
+    r = subprocess.run(["gcc", "-O0", "-o", exe, os.path.join(ROOT, "uapi", "uapi_dump.c")], stdout=subprocess.PIPE, stderr=subprocess.STDOUT, text=True)
+    if r.returncode != 0:
+        raise ToolError("cannot compile uapi/uapi_dump.c against <linux/vhost.h>: " + r.stdout[-500:])
+    uapi = subprocess.run([exe], stdout=subprocess.PIPE, text=True, check=True).stdout
+    cases = ctx.tlc_mc("MC_Kern", "MC_Kern_" + ctx.tier, workers=1)
+    reps = 4 if ctx.tier == "quick" else 40
+    allc = [dict(c) for r_ in range(reps) for c in cases]
+    allc = replay_or(ctx, "kern", allc)
+    tr = ctx.harness("kern", allc, shards=8)
+    # the header's numbers go through the same trace validation (TLC compares them with the catalogue)
+    tr2 = tr + ".uapi"
+    with open(tr2, "w") as f:
+        f.write(uapi)
+        f.write(open(tr).read())
+    viol = ctx.tlc_tv("TV_Kern", tr2, "kern")
+    spec_err = [v for v in viol if v["sig"].startswith("SPEC/")]
+    if spec_err:
+        raise ToolError("KernBackend.tla disagrees with this system's <linux/vhost.h>: " + ", ".join(v["sig"] for v in spec_err))
+    ctx.count_distinct(tr, lambda e: (e.get("backend"), e.get("op"), e.get("cls"), e.get("kfail"), e.get("nioctls"), e.get("res_ok")),
+                       lambda e: e.get("ev") == "kop")
+    ctx.sample(tr, 3, skip=2)
+    ctx.exhaustive = True
+    return ctx.finish("exploration",
+        "KernBackend.tla (ioctl direction/type/number/size and argument layouts, IOTLB v1/v2 layouts, refusal classes) is transcribed from "
+        "<linux/vhost.h>; a C program compiled against the installed header prints the same table and TLC checks the two agree. TLC "
+        "enumerates every operation of the kernel, net, vsock and vDPA backends x argument class x kernel outcome x acknowledged-feature "
+        "state x 1..3 region layouts (+ histories changing the acknowledged features); each is run on the real backend objects on a dummy "
+        "descriptor with `ioctl` interposed by the harness binary and IOTLB writes read back; TLC validates request number, argument "
+        "bytes (host-address translation for kernel rings, identity for vDPA), returned values and refusal before any ioctl; values are "
+        "redrawn per repetition from the 64-bit lattice",
+        ASSUME_COMMON + ["<linux/vhost.h> of this sandbox is the UAPI truth", "ioctl is interposed by symbol definition in the harness binary (vmm-sys-util calls libc::ioctl)",
+                         "perm/type bytes outside the defined enums are not fed to the parsers (transmute of an undefined discriminant is outside what a trace can observe)"],
+        viol)
